@@ -740,5 +740,24 @@ def run_case(case):
             c = getattr(e, 'cause', e)
             add('access_path_failed', '%s() failed: %s: %s' % (via, type(c).__name__, str(c)[:300]),
                 'access_path_failed/' + via)
+    # process() of a flow whose LAST link is an always-true conditional: the package it returns is the package
+    if total >= 2:
+        try:
+            steps_ = [b() for b in builders('PC')]
+            k_ = rng.randint(1, total - 1)
+            suffix_ = d.Flow(*steps_[k_:])
+            with boot.quiet():
+                ret = d.Flow(*(steps_[:k_] + [d.conditional(lambda dp: True, suffix_)])).process()
+            counters['strategies_compared'] += 1
+            cov['strategy']['process_ending_in_conditional'] = 1
+            dp_ = ret[0] if isinstance(ret, tuple) else ret
+            desc_ = getattr(dp_, 'descriptor', None)
+            if desc_ is None or strip_late(desc_) != base[0]:
+                add('access_path', 'process() of the flow ending in conditional(True, Flow(suffix@%d)) returns the package %s'
+                    % (k_, 'None' if desc_ is None else 'with another descriptor than results()'), 'access_path/process_conditional')
+        except Exception as e:
+            c = getattr(e, 'cause', e)
+            add('access_path_failed', 'process() of the flow ending in a conditional failed: %s: %s'
+                % (type(c).__name__, str(c)[:300]), 'access_path_failed/process_conditional')
     nontrivial = total >= 2 and nrows >= 1 and counters['strategies_compared'] >= 2
     return dict(nontrivial=nontrivial, violations=viol, cov=cov, counters=counters, sample={'program': prog})
